@@ -898,9 +898,9 @@ pub fn run(args: Args) -> ! {
         }
         rep.stats.merge(st);
     }
-    let run = run_tape("C08.edits", &prop, 3000, args.tier.pick(30_000, 600_000), args.seed, workers());
+    let run = run_tape("C08.edits", &prop, 3000, args.tier.pick(120_000, 1_200_000), args.seed, workers());
     finish_run(&mut rep, "edits", run);
-    let run = run_tape("C08.f18probe", &prop_f18probe, 3000, args.tier.pick(10_000, 200_000), args.seed, workers());
+    let run = run_tape("C08.f18probe", &prop_f18probe, 3000, args.tier.pick(30_000, 400_000), args.seed, workers());
     finish_run(&mut rep, "f18probe", run);
     for c in ["table.vivify-probe", "inline.vivify-probe", "table.insert-new", "table.insert-existing", "table.remove", "table.add-table", "table.add-table-under-implicit-or-dotted", "table.retain", "table.sort_values", "inline.insert", "inline.remove", "array.push", "array.insert", "array.replace", "array.replace-last", "array.remove", "aot.push", "aot.remove"] {
         rep.require_class(c);
